@@ -43,7 +43,7 @@ def scenarios(tier):
 def main(tier):
     rep = common.Report(PROP, tier)
     jobs = common.rotate(scenarios(tier))
-    deadline = time.time() + (170 if tier == 'quick' else 2400)
+    deadline = time.time() + (150 if tier == 'quick' else 2400)
     res = common.parallel_map(common.explore_job, jobs, deadline=deadline)
     rep.add_explore_results(jobs, res)
     rep.assumptions = [
